@@ -132,6 +132,133 @@ func (env *rEnv) call(n *rNode) Value {
 		return env.fail("lenlist of non-list")
 	case "absexp":
 		return sym(App(SInt, "absexp", argT(0), argT(1)))
+	case "bit":
+		// bit(x, 16): the bit with value 16 is set in x
+		return sym(Eq(App(SInt, "mod", App(SInt, "div", argT(0), argT(1)), IntLit(2)), IntLit(1)))
+	case "sqlAllInTxn":
+		// every SQL statement of the call ran on the transaction handle while the transaction was open
+		ok := true
+		for _, ev := range env.post.trace {
+			if ev.Kind == "sql" {
+				info, _ := ev.Extra.(*StmtInfo)
+				if !ev.InTxn || info == nil || info.Handle != "tx" {
+					ok = false
+				}
+			}
+		}
+		return sym(BoolLit(ok))
+	case "writesAllInTxn":
+		ok := true
+		for _, ev := range env.post.trace {
+			if ev.Kind == "sql" {
+				info, _ := ev.Extra.(*StmtInfo)
+				if info != nil && info.Writes && (!ev.InTxn || info.Handle != "tx") {
+					ok = false
+				}
+			}
+		}
+		return sym(BoolLit(ok))
+	case "oneTxn":
+		n := 0
+		for _, ev := range env.post.trace {
+			if ev.Kind == "begin" {
+				n++
+			}
+		}
+		return sym(BoolLit(n <= 1))
+	case "casDrawnInTxn":
+		ok := true
+		for _, ev := range env.post.trace {
+			if ev.Kind == "hlcnow" && !ev.InTxn {
+				ok = false
+			}
+		}
+		return sym(BoolLit(ok))
+	case "lockedThroughout":
+		// lockedThroughout("c.bucket.mutex"): every SQL statement, Begin and Commit happened with the lock held
+		if n.Args[0].Op == "str" {
+			ok := true
+			for _, ev := range env.post.trace {
+				switch ev.Kind {
+				case "sql", "begin", "commit", "rollback", "hlcnow":
+					held := false
+					for _, l := range ev.Locks {
+						if l == n.Args[0].Text {
+							held = true
+						}
+					}
+					if !held {
+						ok = false
+					}
+				}
+			}
+			return sym(BoolLit(ok))
+		}
+	case "postsAfterCommit":
+		// every event is posted after the commit, outside the transaction
+		ok := true
+		committed := false
+		for _, ev := range env.post.trace {
+			if ev.Kind == "commit" {
+				committed = true
+			}
+			if ev.Kind == "post" && (!committed || ev.InTxn) {
+				ok = false
+			}
+		}
+		return sym(BoolLit(ok))
+	case "stmtsScoped":
+		// stmtsScoped(cid): every statement on a collection-scoped table is restricted to collection cid
+		cid := argT(0)
+		res := TTrue
+		for _, ev := range env.post.trace {
+			if ev.Kind != "sql" {
+				continue
+			}
+			info, _ := ev.Extra.(*StmtInfo)
+			if info == nil {
+				res = TFalse
+				continue
+			}
+			switch strings.ToLower(info.Table) {
+			case "documents", "designdocs", "collections":
+				if info.Stmt != nil && info.Kind == "insert" && strings.EqualFold(info.Table, "collections") {
+					continue
+				}
+				if info.CollTerm.S == "" {
+					res = TFalse
+				} else {
+					res = And(res, Eq(info.CollTerm, cid))
+				}
+			}
+		}
+		return sym(res)
+	case "rawof":
+		// the []byte a value is stored as (spec of encodeAsRaw): nil -> NULL, []byte -> itself, otherwise its JSON encoding
+		switch v := env.eval(n.Args[0]).(type) {
+		case VNil:
+			return sym(nullB)
+		case VSym:
+			if v.T.Sort == SBytes {
+				return v
+			}
+		case VIface:
+			switch inner := v.V.(type) {
+			case VSym:
+				if inner.T.Sort == SBytes {
+					return inner
+				}
+			case VAbs:
+				if inner.Kind == "json" {
+					return sym(App(SBytes, "j.marshal", inner.Data.(Term)))
+				}
+			}
+		}
+		return env.fail("rawof: unsupported value shape")
+	case "concat":
+		cc := App(SBytes, "b.concat", argT(0), argT(1))
+		env.post.fact(Not(Eq(cc, nullB)))
+		return sym(cc)
 	case "b2i":
 		return sym(Ite(argT(0), IntLit(1), IntLit(0)))
 	case "looksjson":
@@ -184,6 +311,10 @@ func (env *rEnv) call(n *rNode) Value {
 	case "xhas":
 		e.needXattr = true
 		return sym(Not(Eq(Select(App(SXMap, "xmap", argT(0)), argT(1), SBytes), mkT("NOX", SBytes))))
+	case "xok":
+		return sym(App(SBool, "xok", argT(0)))
+	case "xmapnil":
+		return sym(App(SBool, "xmapnil", argT(0)))
 	case "issys":
 		return sym(App(SBool, "s.sys", argT(0)))
 	case "min":
@@ -201,9 +332,12 @@ func (env *rEnv) call(n *rNode) Value {
 			return env.fail("spec recursion too deep at %s", n.Text)
 		}
 		args := make([]Value, len(n.Args))
+		savedPol := env.pol
+		env.pol = 0
 		for i, a := range n.Args {
 			args[i] = env.eval(a)
 		}
+		env.pol = savedPol
 		saved := map[string]Value{}
 		had := map[string]bool{}
 		for i, p := range sp.Params {
